@@ -1,6 +1,6 @@
 #!/bin/bash
 # allthorough.sh : runs every thorough tier once, keeps the quick evidence files (thorough evidence goes to evidence-thorough/)
-cd /verif; mkdir -p evidence-thorough
+cd "$(dirname "$0")/.."; mkdir -p evidence-thorough
 for i in 01 02 03 04 05 06 07 08 09 10 11 12 13 14 15 16 17 18 19 20; do
   cp evidence/C$i.json /tmp/evq-C$i.json
   /usr/bin/time -f "%es" ./run.sh C$i thorough 2>&1 | grep -E "^C[0-9]+ thorough|VIOL|ENGINE|BUILD|^[0-9.]+s$" | tr '\n' ' '; echo
